@@ -92,6 +92,9 @@ func NewComponents(spec openapi3.Components, opts SchemaOptions) (zero Component
 	pathParameters := make(openapi3.ParametersMap)
 	cookieParameters := make(openapi3.ParametersMap)
 	for k, v := range spec.Parameters {
+		if v == nil || v.Value == nil {
+			return zero, fmt.Errorf("parameter %q: is not defined (null, or a reference that does not resolve)", k)
+		}
 		switch v.Value.In {
 		case "query":
 			queryParameters[k] = v
